@@ -49,6 +49,16 @@ type c09bCase struct {
 	Sides   [2]c09bSide `json:"sides"` // 0 = A (client muxer, odd ids), 1 = B (server muxer, even ids)
 	DelayMs [2]int      `json:"delay"` // one-way delay A->B, B->A; >= 1 ms
 	Seed    uint64      `json:"seed"`  // keys tube types, payload sizes and payload bytes
+	// After the verdict on the burst, when nothing will be created any more (so still no identifier is ever reused):
+	// Abort[s] unreliable tubes are opened by side s and closed again at once - all of them created, then, 1 ms later
+	// and before any answer can be back (every delay is >= 1 ms each way), all of them closed; an unreliable tube that
+	// was closed before its handshake completed leaves the opener's muxer at once, its peer's answer arrives afterwards.
+	// (A reliable tube cannot be closed before its handshake completed: Close waits for it.)
+	Abort [2]int `json:"abort,omitempty"`
+	// CloseAll: then every tube of the case is closed on both ends, the identifiers leave their quarantine, and the
+	// network delivers one more copy of every answer to an open request (RESP datagram) it carried: duplicates that
+	// outlived their tubes.
+	CloseAll bool `json:"closeall,omitempty"`
 }
 
 const c09bAcceptQueue = 128 // capacity of the muxer's accept queue: more pending tubes than this make the receiver wait
@@ -105,11 +115,13 @@ func c09bClass(rel bool) string {
 }
 
 type c09bTube struct {
-	key  c09bKey
-	typ  byte
-	seq  int // index among everything its side opens in the case
-	data []byte
-	at   time.Duration
+	key     c09bKey
+	typ     byte
+	seq     int // index among everything its side opens in the case
+	data    []byte
+	at      time.Duration
+	tb      Tube
+	aborted bool // opened and closed again at once (aftermath): not judged by "never offered", carries no data
 }
 
 type c09bOffer struct {
@@ -154,6 +166,8 @@ type c09bRun struct {
 	mu      sync.Mutex
 	opened  map[c09bKey]*c09bTube
 	offers  map[c09bKey][]c09bOffer
+	handed  [2][]Tube  // every tube Accept handed out, per accepting side
+	resps   [2][][]byte // [direction] the answers to open requests (RESP datagrams) the network carried
 	reqSeen map[c09bKey]bool // the open request of this tube reached the accepting side (network log)
 	refused [2]int           // Create calls that returned an error (out of identifiers)
 	fast    atomic.Bool
@@ -197,7 +211,7 @@ func (r *c09bRun) create(side int, rel bool, seq int) {
 		return
 	}
 	k := c09bKey{side, rel, tb.GetID()}
-	t := &c09bTube{key: k, typ: typ, seq: seq, at: r.p.Net.Elapsed()}
+	t := &c09bTube{key: k, typ: typ, seq: seq, at: r.p.Net.Elapsed(), tb: tb}
 	t.data = c09bPayload(r.c.Seed, k, typ, seq)
 	r.mu.Lock()
 	if other, dup := r.opened[k]; dup {
@@ -261,9 +275,23 @@ func (r *c09bRun) acceptor(side int) {
 		k := c09bKey{1 - side, tb.IsReliable(), tb.GetID()}
 		r.mu.Lock()
 		r.offers[k] = append(r.offers[k], c09bOffer{byte(tb.Type()), r.p.Net.Elapsed()})
+		r.handed[side] = append(r.handed[side], tb)
 		n := len(r.offers[k])
 		t := r.opened[k]
+		openedByPeer := 0
+		for ok := range r.opened {
+			if ok.opener == 1-side {
+				openedByPeer++
+			}
+		}
 		switch {
+		case k.id%2 != byte(side):
+			// "each REMOTELY opened tube is offered": what Accept hands out on a side was opened by the other side and
+			// carries an identifier of the other side's parity (A opens odd identifiers and is offered even ones)
+			r.failLocked("C09:accepted-tube-carries-the-acceptors-own-parity:burst-of-opens:"+c09bClass(k.rel), "Accept on side %d handed out %s tube id %d (type %d): identifiers of that parity are opened by side %d itself, its peer never opens them", side, c09bClass(k.rel), k.id, tb.Type(), side)
+		case len(r.handed[side]) > openedByPeer:
+			// (faithful network, no identifier reused, no open request duplicated): never more tubes than the peer opened
+			r.failLocked("C09:more-tubes-accepted-than-opened:burst-of-opens", "Accept on side %d has handed out %d tubes, side %d has opened %d so far", side, len(r.handed[side]), 1-side, openedByPeer)
 		case t == nil:
 			r.failLocked("C09:accepted-tube-nobody-opened:burst-of-opens", "side %d was offered a %s tube with id %d and type %d; side %d never opened such a tube", side, c09bClass(k.rel), k.id, tb.Type(), 1-side)
 		case n > 1:
@@ -284,6 +312,15 @@ func (r *c09bRun) acceptor(side int) {
 // handle reads what arrives on an accepted tube: it must be what the opener wrote on THAT tube (a prefix of it, for a
 // reliable tube; the one whole message, for an unreliable one). Nothing arriving is not judged here (C08 / by design).
 func (r *c09bRun) handle(tb Tube, t *c09bTube) {
+	if t.aborted {
+		// nothing was written on it: whatever arrives is foreign
+		buf := make([]byte, 4096)
+		tb.SetReadDeadline(time.Now().Add(10 * time.Second))
+		if n, _ := tb.Read(buf); n > 0 {
+			r.fail("C09:content-not-written-on-this-tube:burst-of-opens:"+c09bClass(t.key.rel), "%v was closed by its opener before anything was written on it, yet the accepting side read %d bytes: %s", t.key, n, c09bWhose(buf[:n]))
+		}
+		return
+	}
 	if rt, ok := tb.(*Reliable); ok {
 		rt.SetReadDeadline(time.Now().Add(20 * time.Second))
 		got := make([]byte, len(t.data)+64)
@@ -312,11 +349,83 @@ func (r *c09bRun) handle(tb Tube, t *c09bTube) {
 func (r *c09bRun) pendingLocked() *c09bTube {
 	var first *c09bTube
 	for k, t := range r.opened {
-		if r.reqSeen[k] && len(r.offers[k]) == 0 && (first == nil || t.seq < first.seq || (t.seq == first.seq && k.opener < first.key.opener)) {
+		if !t.aborted && r.reqSeen[k] && len(r.offers[k]) == 0 && (first == nil || t.seq < first.seq || (t.seq == first.seq && k.opener < first.key.opener)) {
 			first = t
 		}
 	}
 	return first
+}
+
+// aftermath runs after the verdict on the burst; nothing is created after it (see c09bCase.Abort / CloseAll). What it
+// provokes is judged by the clauses of acceptor: no tube nobody opened, none twice, none of the acceptor's own parity,
+// never more than the peer opened.
+func (r *c09bRun) aftermath() {
+	c := r.c
+	if c.Abort[0]+c.Abort[1] > 0 {
+		var mine [2][]*c09bTube
+		for s := 0; s < 2; s++ {
+			seq := c.Sides[s].total()
+			for i := 0; i < c.Abort[s]; i++ {
+				typ := c09bType(c.Seed, s, seq+i)
+				tb, err := r.mux(s).CreateUnreliableTube(TubeType(typ))
+				if err != nil {
+					r.mu.Lock()
+					r.refused[s]++
+					r.mu.Unlock()
+					break
+				}
+				k := c09bKey{s, false, tb.GetID()}
+				t := &c09bTube{key: k, typ: typ, seq: seq + i, at: r.p.Net.Elapsed(), tb: tb, aborted: true}
+				r.mu.Lock()
+				if other, dup := r.opened[k]; dup {
+					r.failLocked("C09:duplicate-local-id:burst-of-opens", "side %d was given unreliable tube id %d twice (for its tubes #%d and #%d) although no tube was ever closed", s, k.id, other.seq, t.seq)
+					r.mu.Unlock()
+					return
+				}
+				r.opened[k] = t
+				r.mu.Unlock()
+				mine[s] = append(mine[s], t)
+			}
+		}
+		time.Sleep(time.Millisecond) // the open requests are on the network, no answer can be back yet
+		for s := 0; s < 2; s++ {
+			for _, t := range mine[s] {
+				t.tb.Close()
+			}
+		}
+		// the requests arrive, are answered, the answers meet muxers that have forgotten the tubes
+		time.Sleep(time.Duration(c.DelayMs[0]+c.DelayMs[1])*time.Millisecond + time.Duration(10*(c.Abort[0]+c.Abort[1])+1000)*time.Millisecond)
+	}
+	if c.CloseAll && r.v.OK() {
+		r.fast.Store(true)
+		r.mu.Lock()
+		var all []Tube
+		for _, t := range r.opened {
+			all = append(all, t.tb)
+		}
+		all = append(append(all, r.handed[0]...), r.handed[1]...)
+		r.mu.Unlock()
+		for _, tb := range all {
+			go tb.Close()
+		}
+		// close handshakes complete, the openers' quarantine (4 x RTT, RTT at most a few hundred ms here) passes
+		time.Sleep(8 * time.Second)
+		r.mu.Lock()
+		resps := r.resps
+		r.mu.Unlock()
+		for i := 0; i < max(len(resps[0]), len(resps[1])); i++ {
+			if i < len(resps[0]) {
+				r.p.Net.B.Inject(resps[0][i])
+			}
+			if i < len(resps[1]) {
+				r.p.Net.A.Inject(resps[1][i])
+			}
+			if i%64 == 63 {
+				time.Sleep(time.Millisecond)
+			}
+		}
+		time.Sleep(2 * time.Second)
+	}
 }
 
 func c09bScenario(c c09bCase, v *vlib.Verdict) {
@@ -331,6 +440,13 @@ func c09bScenario(c c09bCase, v *vlib.Verdict) {
 	n.LogCap = 0
 	r.p = &vPair{Net: n}
 	n.OnSend = func(dir int, pkt []byte, sent time.Duration, dlv []time.Duration) {
+		if len(pkt) >= 2 && len(dlv) > 0 && pkt[1]&(1<<RESPIdx) != 0 && pkt[1]&(1<<REQIdx) == 0 {
+			r.mu.Lock()
+			if len(r.resps[dir]) < 600 {
+				r.resps[dir] = append(r.resps[dir], append([]byte(nil), pkt...))
+			}
+			r.mu.Unlock()
+		}
 		if len(pkt) < 2 || len(dlv) == 0 || pkt[1]&(1<<REQIdx) == 0 {
 			return
 		}
@@ -383,6 +499,11 @@ func c09bScenario(c c09bCase, v *vlib.Verdict) {
 		}
 		r.failLocked("C09:tube-never-offered:burst-of-opens:"+c09bClass(t.key.rel), "%v (its tube #%d, type %d, created at %v) was never offered by Accept on side %d within %v although its open request reached that side over a faithful network and no identifier was ever reused; %d of %d opened tubes are missing this way", t.key, t.seq, t.typ, t.at, 1-t.key.opener, bound, miss, len(r.opened))
 	}
+	r.mu.Unlock()
+	if v.OK() && overflow == 0 {
+		r.aftermath()
+	}
+	r.mu.Lock()
 	total := len(r.opened)
 	var openedBy [2]int
 	for k := range r.opened {
@@ -412,6 +533,14 @@ func c09bScenario(c c09bCase, v *vlib.Verdict) {
 	}
 	if total > 128 {
 		v.Label("tubes>128")
+	}
+	if v.OK() && overflow == 0 {
+		if c.Abort[0]+c.Abort[1] > 0 {
+			v.Label("aftermath:tubes-opened-and-closed-at-once")
+		}
+		if c.CloseAll {
+			v.Label("aftermath:all-closed-then-stale-duplicates-of-handshake-answers")
+		}
 	}
 	// tear down (not judged here): accept whatever is left without pauses, then stop both muxers
 	r.fast.Store(true)
@@ -474,6 +603,14 @@ func c09bGen(t *rapid.T) c09bCase {
 		if second[s] != nil && all[1-s] <= c09bAcceptQueue {
 			c.Sides[s].Waves = append(c.Sides[s].Waves, *second[s])
 		}
+	}
+	// aftermath (two cases in three): tubes opened and closed again at once; everything closed, then stale duplicates
+	// of the handshake answers
+	if rapid.IntRange(0, 2).Draw(t, "aftermath") > 0 {
+		for s := 0; s < 2; s++ {
+			c.Abort[s] = rapid.SampledFrom([]int{0, 1, 3, 20}).Draw(t, fmt.Sprintf("s%dabort", s))
+		}
+		c.CloseAll = rapid.Bool().Draw(t, "closeall")
 	}
 	return c
 }
